@@ -133,6 +133,170 @@ def generate(o):
                 return n.test.args[1].id
         raise KeyError("isinstance(i, int)")
 
+
+    def _is_self_attr(v, attr):
+        return isinstance(v, ast.Attribute) and v.attr == attr and isinstance(v.value, ast.Name) and v.value.id == "self"
+
+    def all_names_memo():
+        """Does `FlatColumn.all_names` keep its result on the column, and how is what it kept revalidated?
+        None: nothing is kept (no store to `self`, no caching decorator).  Otherwise [the name is compared, how the
+        aliases are compared]: 'object' (`cached is self.aliases`, or `==` against a stored *reference* to the list: an
+        edit in place changes both sides alike), 'copy' (a copy of the content -- tuple(...), list(...), [:] -- compared by
+        value), 'unchecked'.  A shape that is not recognised raises (-> degraded, pinned None)."""
+        fn = sch.func("all_names", "FlatColumn")
+        for d in fn.decorator_list:
+            nm = d.attr if isinstance(d, ast.Attribute) else d.id if isinstance(d, ast.Name) else \
+                (d.func.attr if isinstance(d.func, ast.Attribute) else getattr(d.func, "id", "")) if isinstance(d, ast.Call) else ""
+            if nm in ("cached_property", "lru_cache", "cache"):
+                return [False, "unchecked"]
+            if nm != "property":
+                raise KeyError("decorator " + nm)
+        stores = []  # (key, value)
+        for n in ast.walk(fn):
+            if isinstance(n, ast.Assign) and len(n.targets) == 1:
+                t = n.targets[0]
+                if isinstance(t, ast.Attribute) and isinstance(t.value, ast.Name) and t.value.id == "self":
+                    stores.append((t.attr, n.value))
+                elif isinstance(t, ast.Subscript) and _is_self_attr(t.value, "__dict__") and isinstance(t.slice, ast.Constant):
+                    stores.append((t.slice.value, n.value))
+            elif isinstance(n, ast.Call):
+                f = n.func
+                if isinstance(f, ast.Name) and f.id == "setattr" and len(n.args) == 3 and isinstance(n.args[0], ast.Name) and n.args[0].id == "self" \
+                        and isinstance(n.args[1], ast.Constant):
+                    stores.append((n.args[1].value, n.args[2]))
+                elif isinstance(f, ast.Attribute) and f.attr == "__setattr__" and len(n.args) == 3 and isinstance(n.args[1], ast.Constant):
+                    stores.append((n.args[1].value, n.args[2]))
+                elif isinstance(f, ast.Attribute) and f.attr in ("setdefault", "update") and _is_self_attr(f.value, "__dict__"):
+                    raise KeyError("self.__dict__.%s" % f.attr)
+        if not stores:
+            if any(_is_self_attr(n, "__dict__") for n in ast.walk(fn)):
+                raise KeyError("self.__dict__ used, nothing stored")
+            return None
+        if len({k for k, _ in stores}) != 1:
+            raise KeyError("several things kept on the column")
+        key, val = stores[0]
+        if any(ast.dump(v) != ast.dump(val) for _, v in stores):
+            raise KeyError("kept in several shapes")
+        # where the kept thing is read back: <var> = self.__dict__.get(key) / getattr(self, key, None) / self.<key>
+        var = None
+        for n in ast.walk(fn):
+            if isinstance(n, ast.Assign) and len(n.targets) == 1 and isinstance(n.targets[0], ast.Name):
+                v = n.value
+                if (isinstance(v, ast.Call) and isinstance(v.func, ast.Attribute) and v.func.attr == "get" and _is_self_attr(v.func.value, "__dict__")
+                        and v.args and isinstance(v.args[0], ast.Constant) and v.args[0].value == key) \
+                        or (isinstance(v, ast.Call) and isinstance(v.func, ast.Name) and v.func.id == "getattr" and len(v.args) >= 2
+                            and isinstance(v.args[1], ast.Constant) and v.args[1].value == key) \
+                        or _is_self_attr(v, key):
+                    var = n.targets[0].id
+        if var is None:
+            raise KeyError("where the kept value is read back")
+
+        def copy_of_aliases(v):
+            if isinstance(v, ast.IfExp):
+                return copy_of_aliases(v.body) or copy_of_aliases(v.orelse)
+            if isinstance(v, ast.Call) and isinstance(v.func, ast.Name) and v.func.id in ("tuple", "list") and len(v.args) == 1 \
+                    and _is_self_attr(v.args[0], "aliases"):
+                return True
+            if isinstance(v, ast.Subscript) and isinstance(v.slice, ast.Slice) and _is_self_attr(v.value, "aliases"):
+                return True
+            if isinstance(v, ast.Call) and isinstance(v.func, ast.Attribute) and v.func.attr == "copy" and _is_self_attr(v.func.value, "aliases"):
+                return True
+            return False
+
+        if not isinstance(val, ast.Tuple):
+            # only the combined list is kept: nothing it could be revalidated against
+            tests = [n for n in ast.walk(fn) if isinstance(n, ast.Compare) and any(isinstance(x, ast.Name) and x.id == var for x in ast.walk(n))
+                     and not (len(n.ops) == 1 and isinstance(n.ops[0], (ast.Is, ast.IsNot)) and isinstance(n.comparators[0], ast.Constant))]
+            if tests:
+                raise KeyError("a kept value that is not a tuple is compared with something")
+            return [False, "unchecked"]
+        slot = {}
+        for pos, e in enumerate(val.elts):
+            if _is_self_attr(e, "name"):
+                slot[pos] = "name"
+            elif _is_self_attr(e, "aliases"):
+                slot[pos] = "aliases-ref"
+            elif copy_of_aliases(e):
+                slot[pos] = "aliases-copy"
+            else:
+                slot[pos] = "other"
+        checks_name, alias_key = False, "unchecked"
+        for n in ast.walk(fn):
+            if not (isinstance(n, ast.Compare) and len(n.ops) == 1):
+                continue
+            l, r = n.left, n.comparators[0]
+            for a, b in ((l, r), (r, l)):
+                if isinstance(a, ast.Subscript) and isinstance(a.value, ast.Name) and a.value.id == var and isinstance(a.slice, ast.Constant):
+                    what = slot.get(a.slice.value)
+                    if what == "name" and _is_self_attr(b, "name") and isinstance(n.ops[0], ast.Eq):
+                        checks_name = True
+                    elif what == "aliases-ref" and _is_self_attr(b, "aliases") and isinstance(n.ops[0], (ast.Is, ast.Eq)):
+                        alias_key = "object"
+                    elif what == "aliases-copy" and isinstance(n.ops[0], ast.Eq) and (_is_self_attr(b, "aliases") or copy_of_aliases(b)):
+                        alias_key = "copy"
+                    else:
+                        raise KeyError("how the kept %s is compared: %s" % (what, ast.unparse(n)[:40]))
+        # any other comparison that involves the kept value (beyond `is None`) is something this reading does not understand
+        for n in ast.walk(fn):
+            if isinstance(n, ast.Compare) and any(isinstance(x, ast.Name) and x.id == var for x in ast.walk(n)):
+                if len(n.ops) == 1 and isinstance(n.ops[0], (ast.Is, ast.IsNot)) and isinstance(n.comparators[0], ast.Constant) \
+                        and n.comparators[0].value is None and isinstance(n.left, ast.Name):
+                    continue
+                sides = [n.left] + list(n.comparators)
+                if len(n.ops) == 1 and any(isinstance(a, ast.Subscript) and isinstance(a.value, ast.Name) and a.value.id == var
+                                           and isinstance(a.slice, ast.Constant) and slot.get(a.slice.value) in ("name", "aliases-ref", "aliases-copy")
+                                           for a in sides):
+                    continue
+                raise KeyError("a comparison of the kept value: " + ast.unparse(n)[:40])
+        return [checks_name, alias_key]
+
+    def sum_methods():
+        """which of the sum's special methods RelationSchema defines (def or assignment in the class body)"""
+        for n in sch.tree.body:
+            if isinstance(n, ast.ClassDef) and n.name == "RelationSchema":
+                found = []
+                for b in n.body:
+                    names = [b.name] if isinstance(b, (ast.FunctionDef, ast.AsyncFunctionDef)) else \
+                        [t.id for t in b.targets if isinstance(t, ast.Name)] if isinstance(b, ast.Assign) else []
+                    found += [x for x in names if x in ("__add__", "__radd__", "__iadd__")]
+                return sorted(set(found))
+        raise KeyError("class RelationSchema")
+
+    def augmented_in_place():
+        """`a += b`: without `__iadd__` Python evaluates `a = a.__add__(b)` (False).  With one: False when it only hands
+        over to the plain sum (`__iadd__ = __add__`, `return self + other`, `return self.__add__(other)`), True when it
+        returns `self` or writes to `self.columns`; any other shape raises (-> degraded, pinned False)."""
+        for n in sch.tree.body:
+            if isinstance(n, ast.ClassDef) and n.name == "RelationSchema":
+                for b in n.body:
+                    if isinstance(b, ast.Assign) and any(isinstance(t, ast.Name) and t.id == "__iadd__" for t in b.targets):
+                        if isinstance(b.value, ast.Name) and b.value.id == "__add__":
+                            return False
+                        raise KeyError("__iadd__ = " + ast.unparse(b.value)[:30])
+                    if isinstance(b, ast.FunctionDef) and b.name == "__iadd__":
+                        me = b.args.args[0].arg
+                        for m in ast.walk(b):
+                            if isinstance(m, ast.Return) and isinstance(m.value, ast.Name) and m.value.id == me:
+                                return True
+                            if isinstance(m, ast.Call) and isinstance(m.func, ast.Attribute) and m.func.attr in ("append", "extend", "insert", "remove", "pop", "clear", "sort", "reverse") \
+                                    and isinstance(m.func.value, ast.Attribute) and m.func.value.attr == "columns" and isinstance(m.func.value.value, ast.Name) and m.func.value.value.id == me:
+                                return True
+                            if isinstance(m, (ast.Assign, ast.AugAssign)):
+                                for t in (m.targets if isinstance(m, ast.Assign) else [m.target]):
+                                    base = t.value if isinstance(t, ast.Subscript) else t
+                                    if isinstance(base, ast.Attribute) and base.attr == "columns" and isinstance(base.value, ast.Name) and base.value.id == me:
+                                        return True
+                        body = [x for x in b.body if not (isinstance(x, ast.Expr) and isinstance(x.value, ast.Constant))]
+                        if len(body) == 1 and isinstance(body[0], ast.Return):
+                            v = body[0].value
+                            if isinstance(v, ast.BinOp) and isinstance(v.op, ast.Add) and isinstance(v.left, ast.Name) and v.left.id == me:
+                                return False
+                            if isinstance(v, ast.Call) and isinstance(v.func, ast.Attribute) and v.func.attr == "__add__":
+                                return False
+                        raise KeyError("body of __iadd__")
+                return False
+        raise KeyError("class RelationSchema")
+
     def width():
         fn = tools.func("random_string")
         d = fn.args.defaults
@@ -148,6 +312,9 @@ def generate(o):
     ft = o.item("schema.find.tests", find_tests, [["lower", "in"], ["exact", "in"]])
     cd = o.item("schema.column.index_type", column_dispatch, "int")
     w = o.item("tools.random_string.width", width, 16)
+    memo = o.item("schema.all_names.memo", all_names_memo, None)
+    sm = o.item("schema.sum.methods", sum_methods, ["__add__"])
+    aug = o.item("schema.sum.augmented_in_place", augmented_in_place, False)
 
     text = HEADER + "namespace Gen.SchemaOps\n"
     text += "/-- `all_names` returns `self.aliases + [self.name]` (true) or `[self.name] + self.aliases` (false). -/\n"
@@ -166,5 +333,12 @@ def generate(o):
     text += "def columnIndexType : String := %s\n" % lean_str(cd)
     text += "/-- default width of `random_string` (the column identity) -/\n"
     text += "def identityWidth : Nat := %d\n" % w
+    text += "/-- `FlatColumn.all_names` keeps its result on the column: `none` = no; `some (the name is compared, how the aliases are\n"
+    text += "compared: \"object\" = the list object, \"copy\" = a copy of its content by value, \"unchecked\")` -/\n"
+    text += "def allNamesMemo : Option (Bool × String) := %s\n" % ("none" if memo is None else "some (%s, %s)" % ("true" if memo[0] else "false", lean_str(memo[1])))
+    text += "/-- which of `__add__`, `__radd__`, `__iadd__` the class RelationSchema defines -/\n"
+    text += "def sumMethods : List String := %s\n" % lean_list(sm, lean_str)
+    text += "/-- `a += b` changes the object `a` (an `__iadd__` that returns `self` / writes to `self.columns`) instead of binding the name to `a + b` -/\n"
+    text += "def augmentedInPlace : Bool := %s\n" % ("true" if aug else "false")
     text += "end Gen.SchemaOps\n"
     o.files["SchemaOps.lean"] = text
